@@ -37,7 +37,7 @@ ASSUMPTIONS = [
 ]
 BUDGET = {"quick": 45, "thorough": 420}
 NCASES = {"quick": 3000, "thorough": 60000}
-FLOORS = {"quick": {"case_held": 400, "nontrivial": 300}, "thorough": {"case_held": 8000, "nontrivial": 6000}}
+FLOORS = {"quick": {"case_held": 400, "nontrivial": 300, "curved_held": 40}, "thorough": {"case_held": 8000, "nontrivial": 6000, "curved_held": 500}}
 COVER_FLOORS = {"quick": {"kinds": ["variable", "nested", "second", "coefficient", "coef-and-variable", "twin-variables", "variable-of-x"]}, "thorough": {"kinds": ["variable", "nested", "second", "coefficient", "mixed-second", "coef-and-variable", "twin-variables", "variable-of-x"]}}
 CELLS = [("interval", 1), ("triangle", 2), ("triangle", 2), ("triangle", 3), ("tetrahedron", 3)]
 VSHAPES = [(), (), (2,), (3,), (2, 2), (2, 3)]
@@ -71,10 +71,15 @@ def contains(e, t):
     return walk(e)
 
 
-def case(ctx, i, rng):
+def case(ctx, i, rng, curved=None):
+    # about one case in ten on a non-affine cell (vf.world.CurvedWorld): "all field values" includes fields that are
+    # not polynomials in x and geometry that varies over the cell
+    curved = (rng.random() < 0.1) if curved is None else curved
     cell, gdim = rng.choice(CELLS)
     cplx = rng.random() < 0.25
-    U = Universe(rng, cell, gdim, "cell", cplx)
+    if curved:
+        cell, gdim = rng.choice([("interval", 1), ("triangle", 2), ("triangle", 2), ("tetrahedron", 3)])
+    U = Universe(rng, cell, gdim, "cell", cplx, coord_degree=2 if curved else 1)
     kind = rng.choice(["variable", "variable", "nested", "second", "coefficient", "mixed-second", "coef-and-variable", "twin-variables", "variable-of-x"])
     mk = lambda **kw: Gen(U, rng, cplx=cplx, deriv=rng.choice([0, 1]), cond=rng.random() < 0.3, math=rng.random() < 0.8, geom=rng.random() < 0.4, **kw)
     try:
@@ -157,7 +162,12 @@ def case(ctx, i, rng):
     if type(e).__name__ != "VariableDerivative":
         ctx.count("folded_at_construction")
     dep = contains(f, target) if kind == "coefficient" else contains_label(f, target.ufl_operands[1])
-    worlds = oracle.worlds_for(rng, cell, gdim, "cell", cplx, n=3)
+    if curved:
+        from ..world import CurvedWorld
+
+        worlds = [CurvedWorld(rng, cell, gdim, cplx) for _ in range(3)]
+    else:
+        worlds = oracle.worlds_for(rng, cell, gdim, "cell", cplx, n=3)
     e_def = e
     if kind in ("variable", "coefficient", "variable-of-x") and type(target).__name__ in ("Variable", "Coefficient"):
         # the defining node built directly, so that a diff() that silently returns something else (e.g. the total
@@ -166,7 +176,9 @@ def case(ctx, i, rng):
             e_def = ufl.classes.VariableDerivative(f, target)
         except Exception:
             e_def = e
-    verdict, out = check_pass(ctx, "C04", "expand_derivatives", e_def, lambda _x: expand_derivatives(e), worlds, extra_key="/" + kind, localise=e_def is e)
+    verdict, out = check_pass(ctx, "C04", "expand_derivatives", e_def, lambda _x: expand_derivatives(e), worlds, extra_key="/" + kind + ("/non-affine" if curved else ""), localise=e_def is e)
+    if curved:
+        ctx.count("curved_" + verdict.replace("-", "_"))
     ctx.covered("kinds", kind) if verdict == "held" else None
     if verdict == "held":
         if dep:
